@@ -153,7 +153,7 @@ func evalC12(r *runner, u *c12Unit, c C12Case) string {
 				a, b := baseToks[i], got[i]
 				if a.Type != b.Type || !bytes.Equal(a.Lit, b.Lit) || a.Off != b.Off || a.Line != b.Line || a.Col != b.Col {
 					return hd + fmt.Sprintf("input %q: token %d is %s %q at %d:%d:%d without flags, %s %q at %d:%d:%d with %v",
-						c.Src, i+1, lx.Id(a.Type), a.Lit, a.Off, a.Line, a.Col, lx.Id(b.Type), b.Lit, b.Off, b.Line, b.Col, c.Variants[v])
+						c.Src, i+1, tokName(lx, a), a.Lit, a.Off, a.Line, a.Col, tokName(lx, b), b.Lit, b.Off, b.Line, b.Col, c.Variants[v])
 				}
 			}
 		}
